@@ -33,7 +33,12 @@ def encode(uni: str) -> str:
 
 
 def decode(ascii: str) -> str:
-    return codecs.decode(ascii, encoding="punycode")  # type: ignore
+    uni: str = codecs.decode(ascii, encoding="punycode")
+    # the codec happily produces lone surrogates, which are not characters
+    # (and cannot be encoded when the result is written out)
+    if any("\ud800" <= ch <= "\udfff" for ch in uni):
+        raise UnicodeError("punycode label decodes to a surrogate code point")
+    return uni
 
 
 def map_domain(string: str, fn: Callable[[str], str]) -> str:
